@@ -51,7 +51,7 @@ def variant(base: rm.Svc, change: str) -> rm.Svc:
 
 def events_for(tier: str) -> List[tuple]:
     names = list(TEMPLATES)
-    ev: List[tuple] = [("reg", n) for n in names] + [("unreg", n) for n in names]
+    ev: List[tuple] = [("reg", n) for n in names] + [("unreg", n) for n in names] + [("ask",)]
     ev += [("upd", "S1", "port", "same"), ("upd", "S1", "text", "new"), ("upd", "S1", "addr", "same"),
            ("upd", "S1", "ttl", "same"), ("upd", "S3", "noaddr6", "same"), ("upd", "S2", "server", "new")]
     if tier != "quick":
@@ -69,11 +69,16 @@ def make_info(s: rm.Svc) -> Any:
 
 def mutate_info(info: Any, s: rm.Svc) -> None:
     """The application changes fields of the object it registered, then calls update."""
-    info.port = s.port
+    from zeroconf import IPVersion
+
+    if info.port != s.port:
+        info.port = s.port
     if info.text != s.text:
         info._set_text(s.text)
-    info.addresses = s.v4 + s.v6
-    info.host_ttl, info.other_ttl = s.host_ttl, s.other_ttl
+    if info.addresses_by_version(IPVersion.All) != s.v4 + s.v6:
+        info.addresses = s.v4 + s.v6
+    if (info.host_ttl, info.other_ttl) != (s.host_ttl, s.other_ttl):
+        info.host_ttl, info.other_ttl = s.host_ttl, s.other_ttl
 
 
 class Replay:
@@ -91,6 +96,14 @@ class Replay:
         from zeroconf._exceptions import ServiceNameAlreadyRegistered
 
         zc, w = self.zc, self.w
+        if ev[0] == "ask":
+            # somebody browses and resolves everything that is registered (fills the responder's record memos)
+            from zeroconf import DNSIncoming
+            qs = [("Q", t, 12, 1) for t in sorted({d.type for d in self.model.values()})] + \
+                 [("Q", d.name, 33, 1) for d in self.model.values()] + [("Q", d.server, 1, 1) for d in self.model.values()]
+            if qs:
+                zc.query_handler.async_response([DNSIncoming(wire.query(qs), ("10.9.9.8", 5353), None, w.now_ms)], False)
+            return
         kind, n = ev[0], ev[1]
         if kind == "reg":
             desc = TEMPLATES[n]
@@ -177,23 +190,35 @@ def query_names(model: Dict[str, rm.Svc]) -> List[str]:
 
 
 def evaluate(zc: Any, model: Dict[str, rm.Svc], questions: Sequence[Tuple[str, int]], known: Sequence[tuple],
-             now: float) -> Optional[str]:
+             now: float, split: bool = False) -> Optional[str]:
     """One query through the real decoder + responder vs. the reference responder."""
     from zeroconf import DNSIncoming
     from zeroconf._handlers.answers import construct_outgoing_multicast_answers
 
-    data = wire.query([("Q", n, t, 1) for n, t in questions], answers=known)
-    msg = DNSIncoming(data, ("10.9.9.9", 5353), None, now)
-    qa = zc.query_handler.async_response([msg], False)
+    if split and known:
+        # a truncated query: the known answers follow in continuation packets (RFC 6762 s.7.2), reassembled by the listener
+        half = max(1, len(known) // 2)
+        datas = [wire.query([("Q", n, t, 1) for n, t in questions], answers=known[:0], tc=True),
+                 wire.query([], answers=known[:half], tc=len(known) > half)]
+        if len(known) > half:
+            datas.append(wire.query([], answers=known[half:]))
+        msgs = [DNSIncoming(d, ("10.9.9.9", 5353), None, now) for d in datas]
+    else:
+        msgs = [DNSIncoming(wire.query([("Q", n, t, 1) for n, t in questions], answers=known), ("10.9.9.9", 5353), None, now)]
+    qa = zc.query_handler.async_response(msgs, False)
     exp = rm.answer(model, questions, known)
     got: Dict[tuple, Any] = {}
     adds: Dict[tuple, set] = {}
+    add_ttl: Dict[tuple, Any] = {}
     buckets = [] if qa is None else [qa.ucast, qa.mcast_now, qa.mcast_aggregate, qa.mcast_aggregate_last_second]
     for b in buckets:
         for rec, additionals in b.items():
             got[ident(from_lib(rec))] = rec
             adds.setdefault(ident(from_lib(rec)), set()).update(ident(from_lib(a)) for a in additionals)
-    label = f"query {list(questions)} known={[(k[0], k[1], k[3]) + tuple(k[4:5]) for k in known]}"
+            for a in additionals:
+                add_ttl[ident(from_lib(a))] = a.ttl
+    label = f"query {list(questions)}{' (known answers in continuation packets)' if split else ''} " \
+            f"known={[(k[0], k[1], k[3]) + tuple(k[4:5]) for k in known]}"
     want = dict(exp.records)
     # enumeration pointers
     got_enum = {i[3] for i in got if i[0] == "PTR" and i[1] == rm.ENUM}
@@ -239,6 +264,16 @@ def evaluate(zc: Any, model: Dict[str, rm.Svc], questions: Sequence[Tuple[str, i
                     return f"{label}: additional {a} of answer {i} is not that service's NSEC record"
             elif a not in allowed:
                 return f"{label}: additional {a} of answer {i} is not one of that service's own records"
+            want_ttl = None
+            for s in owners:
+                if a[0] == "NSEC":
+                    want_ttl = s.host_ttl
+                for r in [s.ptr(), s.srv(), s.txt()] + s.addrs():
+                    if ident(r) == a:
+                        want_ttl = r[3]
+            if want_ttl is not None and add_ttl.get(a) != want_ttl and not any(
+                    add_ttl.get(a) == (o.host_ttl if a[0] in ("A", "AAAA", "SRV", "NSEC") else o.other_ttl) for o in owners):
+                return f"{label}: additional {a} offered with TTL {add_ttl.get(a)}, configured {want_ttl}"
     # never repeat an answer: build each bucket into a real message and look at the sections
     for b in buckets:
         if not b:
@@ -296,6 +331,9 @@ def state_oracle(hist: tuple) -> Tuple[Optional[Dict[str, Any]], int]:
                 for kn in known_variants(model, [q]):
                     n += 1
                     problem = evaluate(zc, model, [q], kn, now)
+                    if not problem and len(kn) > 1:
+                        n += 1
+                        problem = evaluate(zc, model, [q], kn, now, split=True)
                     if problem:
                         break
             if problem:
